@@ -702,6 +702,10 @@ class Run:
 
         sid = self.nscopes
         self.nscopes += 1
+        # the application re-seeds the global pseudo random generator whenever it likes (reproducible sampling per request):
+        # identifiers and fresh trace ids must not come from it
+        import random
+        random.seed(20240229)
         kw = {}
         if ev.logger is not None:
             kw["logger"] = self.logger(ev.logger)
